@@ -5,4 +5,6 @@ CONSTANTS
   MethodLists = "pairs"
   Exported = {FALSE}
   Tagged = {TRUE}
+  Preludes = {"none"}
+  Shadows = {FALSE}
 INVARIANTS TypeOK TwinSame GroupingIrrelevant OutputShape Export
